@@ -334,6 +334,42 @@ def malformed_rows(tier, seed=0):
     for cls in list(E.CLASSES):
         for k in kinds:
             yield {"cls": cls, "kind": k}
+        # non-finite samples stay non-finite when the affinity does not show it: a callable kernel / metric that returns a
+        # finite matrix whatever it is given, or a valid user-supplied matrix
+        for k in ("nan", "inf", "neginf"):
+            for cfg in ("hiding_callable", "valid_matrix"):
+                yield {"cls": cls, "kind": k, "config": cfg}
+
+
+def _hiding(two_rows=False):
+    if two_rows:
+        return lambda a, b: 1.0 if np.array_equal(a, b) else 0.5
+    return lambda A, B=None: np.ones((len(A), len(A if B is None else B))) + np.eye(len(A), len(A if B is None else B))
+
+
+def _configured(cls, K, cfg):
+    """(estimator, y) with an affinity that is finite although the samples are not; None when the class has no such option"""
+    if cls == "Kauri":
+        from gemclus.tree import Kauri
+        if cfg == "hiding_callable":
+            return Kauri(max_clusters=K, kernel=_hiding(two_rows=True)), None
+        return Kauri(max_clusters=K, kernel="precomputed"), np.eye(8) + 1.0
+    ctor = E.CLASSES[cls]
+    names = ctor().get_params(deep=False)
+    key = "kernel" if "kernel" in names else "metric" if "metric" in names else "base_kernel" if "base_kernel" in names else None
+    if key is None:
+        if "gemini" not in names:
+            return None
+        import gemclus.gemini as G
+        if cfg == "hiding_callable":
+            return ctor(n_clusters=K, max_iter=1, gemini=G.MMDGEMINI(kernel=_hiding())), None
+        return ctor(n_clusters=K, max_iter=1, gemini=G.MMDGEMINI(kernel="precomputed")), np.eye(8) + 1.0
+    if cfg == "hiding_callable":
+        return ctor(n_clusters=K, max_iter=1, **{key: _hiding()}), None
+    if key == "base_kernel":
+        return None
+    M_ = np.eye(8) + 1.0 if key == "kernel" else 1.0 - np.eye(8)
+    return ctor(n_clusters=K, max_iter=1, **{key: "precomputed"}), M_
 
 
 def oracle_malformed(case):
@@ -351,6 +387,19 @@ def oracle_malformed(case):
     else:
         est = E.CLASSES[cls](n_clusters=K, max_iter=1)
     label = f"{cls}.fit on {kind} data"
+    if case.get("config"):
+        made = _configured(cls, K, case["config"])
+        if made is None:
+            return {"nontrivial": False, "classes": ["no_such_option"]}
+        est, y = made
+        label += f" ({case['config']})"
+        # the configuration itself is valid: the same call on the finite data must be accepted
+        twin, y2 = _configured(cls, K, case["config"])
+        expect(label + " [finite data, control]", True, lambda: twin.fit(X, y2) if y2 is not None else twin.fit(X))
+        expect(label, False, lambda: est.fit(bad, y) if y is not None else est.fit(bad))
+        if hasattr(est, "labels_"):
+            raise Violation(f"{label}: rejected but a model was trained")
+        return {"nontrivial": True, "classes": [kind + ":" + case["config"]]}
     expect(label, False, lambda: est.fit(bad))
     if hasattr(est, "labels_"):
         raise Violation(f"{label}: rejected but a model was trained")
